@@ -422,7 +422,7 @@ namespace Givaro
         int sign; uint64_t ua;
         if (a <0) {
             sign =-1;
-            ua = (uint64_t)-a;
+            ua = uint64_t(0) - (uint64_t)a; // -a overflows for INT64_MIN
         }
         else {
             ua = (uint64_t)a;
@@ -468,7 +468,8 @@ namespace Givaro
 
     inline Modular<Log16>::Rep& Modular<Log16>::init( Rep& a, const double i) const
     {
-        return init(a,(int64_t)i);
+        // reduce first: the conversion of a double outside the range of int64_t is undefined
+        return init(a,(int64_t)std::fmod(i, (double)_p));
     }
     inline Modular<Log16>::Rep& Modular<Log16>::init( Rep& a, const float i) const
     {
